@@ -568,6 +568,8 @@ def main(chk):
     c06 = importlib.util.module_from_spec(spec)
     spec.loader.exec_module(c06)
     c06.rule_tag_scans(chk, M.find_class(M.cy(c06.PA), 'ParticleArray'))
+    # ghosts are made with extract_particles / append_parray: every sized operation is scaled by the stride of the same property (rule shared with C06)
+    c06.rule_stride(chk, M.find_class(M.cy(c06.PA), 'ParticleArray'))
     chk.unit('functions', ['CPUDomainManager.update', '_create_ghosts_periodic', '_create_ghosts_mirror', '_box_wrap_periodic',
                            '_compute_cell_size_for_binning', 'DomainManagerBase._remove_ghosts', 'DomainManagerBase.__init__'])
     chk.assume('ParticleArray.extract_particles/append_parray copy whole particles (C06); carray.reset() empties a list')
